@@ -242,3 +242,45 @@ def loops_of(funcnode):
                 walk(h.body)
     walk(funcnode.body)
     return out
+
+
+def loop_shape(st):
+    """(hash of the loop statement with every bare name replaced by its order of first occurrence, the names in that
+    order).  Attribute names, constants and structure are kept: two loops have the same shape iff they are the same
+    code up to a consistent renaming of local variables / parameters."""
+    import copy
+    import hashlib
+    names = []
+    node = copy.deepcopy(st)
+    for n in ast.walk(node):
+        if isinstance(n, ast.Name):
+            if n.id not in names:
+                names.append(n.id)
+            n.id = 'v%d' % names.index(n.id)
+        elif isinstance(n, ast.arg):
+            if n.arg not in names:
+                names.append(n.arg)
+            n.arg = 'v%d' % names.index(n.arg)
+    txt = ast.dump(node, annotate_fields=False, include_attributes=False)
+    return hashlib.sha1(txt.encode()).hexdigest()[:16], names
+
+
+def loop_header_shape(st):
+    """Shape of the loop header only (kind, test or target/iterable), names normalised within the header."""
+    import copy
+    import hashlib
+    if isinstance(st, ast.While):
+        parts = [copy.deepcopy(st.test)]
+        kind = 'while'
+    else:
+        parts = [copy.deepcopy(st.target), copy.deepcopy(st.iter)]
+        kind = 'for'
+    names = []
+    for p in parts:
+        for n in ast.walk(p):
+            if isinstance(n, ast.Name):
+                if n.id not in names:
+                    names.append(n.id)
+                n.id = 'v%d' % names.index(n.id)
+    txt = kind + '|' + '|'.join(ast.dump(p, annotate_fields=False, include_attributes=False) for p in parts)
+    return hashlib.sha1(txt.encode()).hexdigest()[:16]
